@@ -4,7 +4,7 @@ HOOKS = {
     "guard": "verif-hooks (cargo feature of surf_n_term)",
     "enable": "the harness depends on surf_n_term with features = [\"verif-hooks\"] (harness/Cargo.toml, path dependency on /repo)",
     "baseline_off_cmd": "cd /repo && cargo test --workspace --no-fail-fast --offline",
-    "source_commits": ["7db4e26"],
+    "source_commits": ["7db4e26", "c1e7228"],
     "add_only": True,
 }
 
@@ -20,6 +20,12 @@ CHECKS = {
         "technique": "TLA+ code-shaped renderer model x executable screen model checked by TLC on the closure of small screens; real TerminalRenderer/run_render command streams executed on the TLA+ Screen and judged by TLC against Paint(surface) and the from-scratch repaint",
         "text": "TLC proves Shown and SameAsScratch for the code-shaped two-pass diff (RenderImpl) on the closure (all histories of any length) of 1x3/1x4(/2x2, 2x3, 1x5, 1x6) screens and for run_render with a lossy frame queue (RenderLoop); the model is bound to the code by trace validation: thousands of real histories (all ordered pairs of TLC-generated surfaces on small screens, seeded random histories incl. clear/recreate/skip and ambiguous surfaces on screens up to 4x6, real run_render sessions with drops and resizes) are executed command by command on Screen.tla and must match the surface's denotation and the from-scratch screen; the model's predicted screen is compared too (drift).",
         "note": "Trusts Screen.tla as the reference terminal and the harness's projection of commands/cells (fixed tables, images by content). Known findings: overlapping image footprints; stale placements after a frame drop.",
+    },
+    "C03": {
+        "level": "model_checking",
+        "technique": "TLA+ code-shaped tokeniser (buffer, reversed reschedule stack, candidate) model-checked against a leftmost-longest specification for all inputs and all read partitions; generated vectors replayed through the hook; production decoders judged by TLC from logged acceptance tables",
+        "text": "TLC proves for the code-shaped MatcherDecoder model that, for every pattern set of the configuration (8 shapes quick; all 469 sets of <=3 patterns of length <=3 thorough), every input and EVERY partition into reads, the output equals LLSpec's leftmost-longest tokenisation, bytes are conserved at every step, and (liveness) the reschedule loop terminates. The model is bound to the code by replaying every (pattern set, input) through the real tokeniser (hook) under 5 chunkings, and the production event/command decoders are judged on a seeded corpus: TLC computes the tokenisation from the production automaton's logged acceptance table and requires the events of every chunking to equal the concatenation of the per-token events.",
+        "note": "Trusts the hook module (add-only wrapper), the Debug rendering of events as their identity, and C15 for the DFA = pattern-set abstraction. Inputs on which a decoder crashes are counted and left to C02.",
     },
     "C08": {
         "level": "exploration",
